@@ -148,6 +148,8 @@ impl Stats {
     }
 }
 
+const CUR_LEN: usize = 1 << 16;
+
 pub struct Ctx {
     pub prop: String,
     pub tier: Tier,
@@ -158,6 +160,7 @@ pub struct Ctx {
     pub keys: HashSet<u64>,
     pub known: Vec<KnownFinding>,
     cur_path: PathBuf,
+    cur_map: *mut u8,
     /// stop generating once this many violations were recorded in this worker
     pub max_violations: usize,
     item_counter: usize,
@@ -215,6 +218,7 @@ impl Ctx {
             keys: HashSet::new(),
             known: load_known().into_iter().filter(|k| k.property == prop).collect(),
             cur_path,
+            cur_map: std::ptr::null_mut(),
             max_violations: 2,
             item_counter: 0,
         }
@@ -242,9 +246,22 @@ impl Ctx {
     }
 
     fn write_current(&mut self, case: &Case) {
-        // plain write(2) of one line; survives the death of this process
-        if let Ok(mut f) = std::fs::File::create(&self.cur_path) {
-            let _ = f.write_all(case.to_json().as_bytes());
+        // the record lives in a MAP_SHARED file mapping: a plain memory copy that survives the death of this process
+        let j = case.to_json();
+        if self.cur_map.is_null() {
+            self.cur_map = crate::guard::shared_file_map(&self.cur_path, CUR_LEN);
+        }
+        if self.cur_map.is_null() || j.len() + 1 > CUR_LEN {
+            if let Ok(mut f) = std::fs::File::create(&self.cur_path) {
+                let _ = f.write_all(j.as_bytes());
+            }
+            return;
+        }
+        unsafe {
+            // terminator first, then the bytes, so that a reader never sees a stale tail
+            let b = j.as_bytes();
+            std::ptr::copy_nonoverlapping(b.as_ptr(), self.cur_map, b.len());
+            *self.cur_map.add(b.len()) = 0;
         }
     }
 
@@ -396,6 +413,11 @@ impl Ctx {
 
 fn current_variant_tag() -> String {
     format!("{}-m{}", current_variant(), current_mask())
+}
+
+/// append a suffix (Path::with_extension would replace the shard number)
+fn ext(base: &std::path::Path, suffix: &str) -> PathBuf {
+    PathBuf::from(format!("{}.{}", base.display(), suffix))
 }
 
 pub fn short_case(c: &Case) -> String {
@@ -592,8 +614,8 @@ pub fn worker_main(prop: &str, tier: Tier, seed: u64, shard: usize, nshards: usi
     for k in &ctx.keys {
         keys.extend_from_slice(&k.to_le_bytes());
     }
-    std::fs::write(base.with_extension("keys"), keys).unwrap();
-    std::fs::write(base.with_extension("stats.json"), serde_json::to_vec(&ctx.stats).unwrap()).unwrap();
+    std::fs::write(ext(&base, "keys"), keys).unwrap();
+    std::fs::write(ext(&base, "stats.json"), serde_json::to_vec(&ctx.stats).unwrap()).unwrap();
     let _ = std::fs::remove_file(&ctx.cur_path);
     0
 }
@@ -762,14 +784,14 @@ pub fn run_workers(prop: &str, tier: Tier, seed: u64, specs: Vec<WorkerSpec>, wa
                 let base = wd.join(format!("{}.{}.{}", prop, tag, spec.shard));
                 use std::os::unix::process::ExitStatusExt;
                 if st.success() {
-                    match std::fs::read(base.with_extension("stats.json")).ok().and_then(|b| serde_json::from_slice::<Stats>(&b).ok()) {
+                    match std::fs::read(ext(&base, "stats.json")).ok().and_then(|b| serde_json::from_slice::<Stats>(&b).ok()) {
                         Some(s) => merged.merge(s),
                         None => {
                             merged.infra_errors.push(format!("worker {} wrote no statistics", spec.shard));
                             infra = true;
                         }
                     }
-                    if let Ok(b) = std::fs::read(base.with_extension("keys")) {
+                    if let Ok(b) = std::fs::read(ext(&base, "keys")) {
                         for ch in b.chunks_exact(8) {
                             keys.insert(u64::from_le_bytes(ch.try_into().unwrap()));
                         }
@@ -777,7 +799,11 @@ pub fn run_workers(prop: &str, tier: Tier, seed: u64, specs: Vec<WorkerSpec>, wa
                 } else if let Some(sig) = st.signal() {
                     // crash: the case being run is in the .current file
                     let cur = wd.join(format!("{}.{}.{}.current", prop, tag, spec.shard));
-                    match std::fs::read_to_string(&cur).ok().and_then(|s| serde_json::from_str::<Case>(&s).ok()) {
+                    let text = std::fs::read(&cur).ok().map(|b| {
+                        let end = b.iter().position(|&c| c == 0).unwrap_or(b.len());
+                        String::from_utf8_lossy(&b[..end]).to_string()
+                    });
+                    match text.and_then(|s| serde_json::from_str::<Case>(&s).ok()) {
                         Some(case) => {
                             let reason = format!("worker killed by signal {} ({}) while running this case", sig, signal_name(sig));
                             eprintln!("[{}] worker {} crashed (signal {}); shrinking in subprocesses", prop, spec.shard, sig);
